@@ -38,6 +38,14 @@ func lookupExternal(fn *ssa.Function, name string) externalFn {
 	if f, ok := externals[name]; ok {
 		return f
 	}
+	if strings.HasSuffix(name, "/kbin.UnsafeString") {
+		return h(func(fr *frame, a []value) value {
+			s, _ := a[0].([]value)
+			b := make([]value, len(s))
+			copy(b, s)
+			return normStr(symstr{b})
+		})
+	}
 	// generic instantiations: strip type arguments "[...]"
 	if i := strings.IndexByte(name, '['); i >= 0 {
 		base := stripTypeArgs(name)
